@@ -18,6 +18,7 @@ type LockCfg struct {
 	Mutators         []string
 	Exempt           map[string]string // short func key -> reason
 	HeldBy           map[string]int
+	FreshCtors       []string // short func keys whose result is a fresh object
 	MinFuncs         int // floor: functions with direct accesses confirmed by hand
 }
 
@@ -63,6 +64,15 @@ func (c *Ctx) RunLock(rule string, cfg LockCfg) *an.LockResult {
 	byKey := map[string]*ssa.Function{}
 	for _, f := range funcs {
 		byKey[fkey(f)] = f
+	}
+	spec.FreshCtors = map[string]bool{}
+	for _, k := range cfg.FreshCtors {
+		f := byKey[k]
+		if f == nil {
+			c.R.Unknown("ANCHOR", "lock-fresh-ctor:"+k, "", "constructor not found (stale table entry)")
+			continue
+		}
+		spec.FreshCtors[an.FullName(f)] = true
 	}
 	for k, why := range cfg.Exempt {
 		f := byKey[k]
